@@ -427,14 +427,14 @@ func c05Ctutil(r *Run) {
 		r.FailEdge(fn, "VerifySCTWithVerifier", EdgeSpec{Name: "nil-verifier", Atom: nilAtom("p0"), Bad: "nil", Want: wantErr(false),
 			Unreach: asInstrs(CallsTo(fn, "(ct.SignatureVerifier).VerifySCTSignature"))})
 		if lc := r.OneCall(fn, "VerifySCTWithVerifier:createLeaf", "ctutil.createLeaf"); lc != nil {
-			for i := 0; i < 3; i++ {
-				r.ExpectArg(lc, fmt.Sprintf("VerifySCTWithVerifier:createLeaf.arg%d", i), i, fmt.Sprintf("p%d", i+1))
-			}
+			// the leaf is built from this call's chain, SCT and embedded flag (whatever way
+			// createLeaf's parameter list packages them)
+			createLeafInputs(r, "VerifySCTWithVerifier:createLeaf", 1)
 			r.FailEdge(fn, "VerifySCTWithVerifier", EdgeSpec{Name: "createLeaf-error", Atom: nilAtom("ctutil.createLeaf(*)#1"), Bad: "non", Want: wantErr(false), Unreach: asInstrs(cs)})
 			for _, c := range cs {
 				r.ExpectArg(c, "VerifySCTWithVerifier:verify.verifier", 0, "*p0")
 				r.ExpectArg(c, "VerifySCTWithVerifier:verify.sct", 1, "*p2")
-				r.ExpectFields(fn, "VerifySCTWithVerifier:verify.entry", CallArgs(c)[2], map[string]string{"Leaf": "*ctutil.createLeaf(p1, p2, p3)#0"})
+				r.ExpectFields(fn, "VerifySCTWithVerifier:verify.entry", CallArgs(c)[2], map[string]string{"Leaf": "*ctutil.createLeaf(*)#0"})
 			}
 		}
 	}
